@@ -327,4 +327,22 @@ def reported (m : MatcherT) (opt : Bool) (inRange vulnerable : Bool) (r : Rec) (
     | .ok false => .reported false
     | .ok true => .reported (if m.versionFilter && m.authoritative then true else vulnerable)
 
+/-- internal/matcher/controller.go for SEVERAL records of one package (one
+    record per (package, repository) pair / environment) and one stored
+    advisory.  Each record comes with its `inRange` and `Vulnerable` bits.
+    `findInterested` keeps the records the Filter accepts; the store returns
+    the advisory for the package if the query of ANY interested record selects
+    it; `filter` then asks `Vulnerable` for EVERY interested record and
+    appends the results, so the advisory is reported if any does. -/
+def reportedMulti (m : MatcherT) (opt : Bool) (rs : List (Rec × Bool × Bool)) (v : Vuln) : Verdict :=
+  if rs.any (fun x => m.filter.eval x.1 == none) then .panic else
+  let interested := rs.filter fun x => m.filter.eval x.1 == some true
+  if interested.isEmpty then .notInterested else
+  let cs := if opt then m.query ++ m.queryOpt else m.query
+  let qs := interested.map fun x => getQuery cs m.versionFilter x.2.1 x.1 v
+  if qs.any (· == .panic) then .panic
+  else if !qs.any (· == .ok true) then (if qs.all (· == .err) then .skipped else .reported false)
+  else if m.versionFilter && m.authoritative then .reported true
+  else .reported (interested.any fun x => x.2.2)
+
 end ClairModel.Join
